@@ -144,7 +144,50 @@ def aesmodes_unit():
                    builtins={'Rijndael': ('mk_rijndael {0} {1}', ['bytes', 'Z'], 'bytes', True)})
 
 
+RAW_FM = {('_rawAesEncrypt', None): ('bo_enc Orc {key} {0}', ['bytes'], 'bytes', False)}
+
+
+def gcm_unit():
+    cls = ClassInfo('AESGCM', 'tlslite.utils.aesgcm', 'AESGCM', 'gcm_',
+                    [('key', 'bytes'), ('_ctr', ('obj', 'AESCTR')), ('_productTable', LZ)],
+                    ignore=['isBlockCipher', 'isAEAD', 'nonceLength', 'tagLength', 'implementation', 'name', '_rawAesEncrypt'],
+                    field_methods=RAW_FM)
+    p = U + 'aesgcm.py'
+    items = [
+        cls,
+        (FnSig('AESGCM._reverseBits', 'gcm_reverseBits', [('i', 'Z')], 'Z'), p),
+        (FnSig('AESGCM._gcmAdd', 'gcm_gcmAdd', [('x', 'Z'), ('y', 'Z')], 'Z'), p),
+        (FnSig('AESGCM._gcmShift', 'gcm_gcmShift', [('x', 'Z')], 'Z'), p),
+        (FnSig('AESGCM.__init__', 'gcm_init', [('key', 'bytes'), ('implementation', 'str'), ('rawAesEncrypt', 'Z')], 'None'), p),
+        (FnSig('AESGCM._mul', 'gcm_mul', [('y', 'Z')], 'Z'), p),
+        (FnSig('AESGCM._update', 'gcm_update', [('y', 'Z'), ('data', 'bytes')], 'Z'), p),
+        (FnSig('AESGCM._auth', 'gcm_auth', [('ciphertext', 'bytes'), ('ad', 'bytes'), ('tagMask', 'bytes')], 'bytes'), p),
+        (FnSig('AESGCM.seal', 'gcm_seal', [('nonce', 'bytes'), ('plaintext', 'bytes'), ('data', 'bytes')], 'bytes'), p),
+        (FnSig('AESGCM.open', 'gcm_open', [('nonce', 'bytes'), ('ciphertext', 'bytes'), ('data', 'bytes')], ('opt', 'bytes')), p),
+    ]
+    return Module9('C09_GCM', REPO, items, requires=['Gen.C09_AesModes'], uses=[aesmodes_unit], oracle='BlockOracle')
+
+
+def ccm_unit():
+    cls = ClassInfo('AESCCM', 'tlslite.utils.aesccm', 'AESCCM', 'ccm_',
+                    [('key', 'bytes'), ('tagLength', 'Z'), ('_ctr', ('obj', 'AESCTR')), ('_cbc', ('obj', 'AESCBC'))],
+                    ignore=['isBlockCipher', 'isAEAD', 'nonceLength', 'implementation', 'name'])
+    p = U + 'aesccm.py'
+    items = [
+        cls,
+        (FnSig('AESCCM._pad_with_zeroes', 'ccm_pad_with_zeroes', [('data', 'bytes'), ('size', 'Z')], 'None', mutates=['data']), p),
+        (FnSig('AESCCM.__init__', 'ccm_init',
+               [('key', 'bytes'), ('implementation', 'str'), ('rawAesEncrypt', 'Z'), ('tag_length', 'Z')], 'None'), p),
+        (FnSig('AESCCM._cbcmac_calc', 'ccm_cbcmac_calc', [('nonce', 'bytes'), ('aad', 'bytes'), ('msg', 'bytes')], 'bytes'), p),
+        (FnSig('AESCCM.seal', 'ccm_seal', [('nonce', 'bytes'), ('msg', 'bytes'), ('aad', 'bytes')], 'bytes'), p),
+        (FnSig('AESCCM.open', 'ccm_open', [('nonce', 'bytes'), ('ciphertext', 'bytes'), ('aad', 'bytes')], ('opt', 'bytes')), p),
+    ]
+    return Module9('C09_CCM', REPO, items, requires=['Gen.C09_AesModes'], uses=[aesmodes_unit], oracle='BlockOracle')
+
+
 UNITS = {
+    'C09_GCM': gcm_unit,
+    'C09_CCM': ccm_unit,
     'C09_RC4': rc4_unit,
     'C09_AesModes': aesmodes_unit,
     'C09_KDF': kdf_unit,
